@@ -279,33 +279,61 @@ func applyChange(content string, lines []string, change TextDocumentContentChang
 
 	startOffset := positionToOffset(lines, change.Range.Start)
 	endOffset := positionToOffset(lines, change.Range.End)
+	// Positions past the end clamp to the end of the document; a range whose
+	// end lies before its start is read as an insertion at its start.
+	if startOffset > len(content) {
+		startOffset = len(content)
+	}
+	if endOffset > len(content) {
+		endOffset = len(content)
+	}
+	if endOffset < startOffset {
+		endOffset = startOffset
+	}
 
-	// Build new content
 	var result strings.Builder
 	result.WriteString(content[:startOffset])
 	result.WriteString(change.Text)
-	if endOffset < len(content) {
-		result.WriteString(content[endOffset:])
-	}
+	result.WriteString(content[endOffset:])
 
 	return result.String()
 }
 
-// positionToOffset converts a Position to a byte offset
+// positionToOffset converts a protocol position to a byte offset into the
+// document whose lines (split at "\n") are given. Following the protocol, the
+// character is counted in UTF-16 code units, a character beyond the end of the
+// line means the end of the line (before its "\r\n" or "\n"), a line beyond the
+// last line means the end of the document, and negative values count as zero.
 func positionToOffset(lines []string, pos Position) int {
+	if pos.Line < 0 {
+		return 0
+	}
 	offset := 0
 	for i := 0; i < pos.Line && i < len(lines); i++ {
 		offset += len(lines[i]) + 1 // +1 for newline
 	}
-	if pos.Line < len(lines) {
-		lineLen := len(lines[pos.Line])
-		if pos.Character < lineLen {
-			offset += pos.Character
-		} else {
-			offset += lineLen
+	if pos.Line >= len(lines) {
+		if offset > 0 {
+			offset-- // the last line has no newline after it
 		}
+		return offset
 	}
-	return offset
+	line := lines[pos.Line]
+	if pos.Line < len(lines)-1 {
+		line = strings.TrimSuffix(line, "\r") // the CR of a CRLF terminator is not line content
+	}
+	units := 0
+	for i, r := range line {
+		w := 1
+		if r >= 0x10000 {
+			w = 2 // a surrogate pair
+		}
+		if units+w > pos.Character {
+			return offset + i
+		}
+		units += w
+	}
+	return offset + len(line)
 }
 
 // GetWordAtPosition returns the word at the given position.
@@ -339,14 +367,14 @@ func positionToOffset(lines []string, pos Position) int {
 // This method is safe for concurrent use as it operates on document fields
 // without modifying state.
 func (doc *Document) GetWordAtPosition(pos Position) string {
-	if pos.Line >= len(doc.Lines) {
+	if pos.Line < 0 || pos.Line >= len(doc.Lines) {
 		return ""
 	}
 
 	line := doc.Lines[pos.Line]
 	runes := []rune(line)
 
-	if pos.Character >= len(runes) {
+	if pos.Character < 0 || pos.Character >= len(runes) {
 		return ""
 	}
 
